@@ -231,6 +231,10 @@ func payloads(rng *emit.Rand, thorough bool) []payload {
 	h = good(2)
 	h.Bad = true
 	add("valid_encoding_bad_flag", enc(h), h)
+	// decodes; Validate() on the decoded header PANICS (vhdr wire flag 2): row VdNone x DecOk x ValPanic
+	h = good(11)
+	h.VPanic = true
+	add("validate_panics", enc(h), h)
 	h = good(3)
 	b := enc(h)
 	add("truncated_last", b[:len(b)-1], nil)
@@ -260,8 +264,10 @@ func payloads(rng *emit.Rand, thorough bool) []payload {
 		add("bad_magic", b, nil)
 		h = good(7)
 		b = enc(h)
-		b[len(b)-1] = 2
-		add("flag_byte_2", b, nil)
+		b[len(b)-1] = 3
+		add("flag_byte_3", b, nil)
+		h = &vhdr.Header{Chain: "", H: 0, T: 0, Nonce: rng.U64(), VPanic: true}
+		add("validate_panics_minimal", enc(h), h)
 		h = good(8)
 		b = enc(h)
 		b[2]++ // chain length field lies
@@ -293,9 +299,12 @@ func randPayload(rng *emit.Rand) payload {
 	switch k := rng.Intn(100); {
 	case k < 45:
 		return payload{"r_valid", b, h}
-	case k < 58:
+	case k < 54:
 		h.Bad = true
 		return payload{"r_bad_flag", enc(h), h}
+	case k < 58:
+		h.VPanic = true
+		return payload{"r_validate_panics", enc(h), h}
 	case k < 65:
 		return payload{"r_truncated", b[:rng.Intn(len(b))], nil}
 	case k < 71:
@@ -1058,7 +1067,7 @@ func optN(reg *vhdr.Registry, hexs []string) string {
 
 func emitCases(t *testing.T, specs []spec, results []result, ran []bool, crashes, splits int) {
 	w := emit.NewWriter("Model.Subscriber Oracle.C11", "case11", "chk11")
-	w.Rule = "complete table: payload variant (valid shapes, Bad flag, truncations, trailing garbage, bad magic/flag/length, bit flip, random bytes, decode-panic byte, empty) " +
+	w.Rule = "complete table: payload variant (valid shapes, Bad flag, Validate-panics flag, truncations, trailing garbage, bad magic/flag/length, bit flip, random bytes, decode-panic byte, empty) " +
 		"x verifier outcome (nil, soft bare/wrapped/doubly wrapped/joined, hard bare/wrapped, plain, context error, hard-over-soft, soft-over-hard, panic) " +
 		"x verifier set before / set late / never set (node context ends), on the wire path A->B->C, one fresh gossipsub network per case; the same for the local path " +
 		"(Broadcast, foreign / typed-nil / mismatching ValidatorData); table rows repeated with WithSubscriberMetrics() on the receiving Subscriber (quick: 5 verifier outcomes, thorough: all; half of the batches); plus seeded random batches of 2-8 messages (one sender each, mostly valid + malformed stream) in flight through one node at once. " +
@@ -1095,6 +1104,10 @@ func emitCases(t *testing.T, specs []spec, results []result, ran []bool, crashes
 		case vdOther:
 			vd = "VdOther"
 		}
+		if h := carriedHeader(sp); h != nil && h.VPanic {
+			valpanic = true // Validate() panics on the header the validator works on (scripted: vhdr wire flag 2)
+		}
+		w.Count("validate_panics", emit.B(valpanic))
 		path := "PWire"
 		if sp.Local {
 			path = "PLocal"
